@@ -102,5 +102,10 @@ DfsOK == (pc = "done" /\ Algo # "bfs") => C06Dfs(X, R)
 BfsOK == (pc = "done" /\ Algo = "bfs") => C06Bfs(X, R)
 \* no array is ever written past its end (the fixed-size tables of the implementation)
 Bounded == Len(out) <= N /\ Len(lvl) <= N + 1
+\* what compute_basins needs beyond C06Dfs (see Sweeps): each outlet is followed by its whole catchment
+RECURSIVE OutletOf(_, _)
+OutletOf(j, m) == IF m = 0 \/ rec[j][1] = j THEN j ELSE OutletOf(rec[j][1], m - 1)
+ContigOK == (pc = "done" /\ Algo = "dfs_bottomup") =>
+   \A q \in 1..N : LET os == {m \in 1..q : rec[out[m]][1] = out[m]} IN os # {} /\ out[SetMax(os)] = OutletOf(out[q], N)
 Terminates == <>(pc = "done")
 =============================================================================
